@@ -468,10 +468,11 @@ def _filter_type_vars(value_set, found=()):
 
 
 def _unpack_subscriptlist(subscriptlist):
+    # Slices are either a `subscript` node or a bare `:`.
     if subscriptlist.type == 'subscriptlist':
         for subscript in subscriptlist.children[::2]:
-            if subscript.type != 'subscript':
+            if subscript.type != 'subscript' and subscript != ':':
                 yield subscript
     else:
-        if subscriptlist.type != 'subscript':
+        if subscriptlist.type != 'subscript' and subscriptlist != ':':
             yield subscriptlist
